@@ -616,7 +616,9 @@ func c17ExecConc(cc *c17ConcCase, loadSeed int64, res *core.CaseResult, tags []s
 			res.Add("conc_hung_cases", 1)
 			return
 		}
-		res.Inconclusive = fmt.Sprintf("%d of %d workers did not return within 90 s (clock at %d); deadlock or livelock suspected, not decided", cfg.Workers-n, cfg.Workers, atomic.LoadInt64(&clock))
+		res.Inconclusive = fmt.Sprintf("%s/%s: workers did not return within 90 s; deadlock or livelock suspected, not decided", cfg.KindName, cfg.TypeName)
+		res.Add("conc_hung_workers", int64(cfg.Workers-n))
+		res.Add("conc_hung_clock", atomic.LoadInt64(&clock))
 		res.Add("conc_hung_cases", 1)
 		return
 	}
